@@ -45,6 +45,13 @@ func execSQLWindowOnce(c Case) ([][]string, bool) {
 	var mu sync.Mutex
 	var lines [][]string
 	sentinel := ""
+	// the sentinel sits on a slide-aligned instant: it is delivered once per covering window,
+	// ceil(size/slide) times for a sliding window; the run is complete after the last of them
+	sentinelSeen, sentinelWant := 0, 1
+	if cfgStr(c, "kind", "") == "sqlsliding" {
+		size, slide := cfgInt(c, "size", 1000), cfgInt(c, "slide", 500)
+		sentinelWant = int((size + slide - 1) / slide)
+	}
 	seen := make(chan struct{}, 1)
 	s.AddSyncSink(func(batch []map[string]interface{}) {
 		rows := append([]map[string]interface{}(nil), batch...)
@@ -63,9 +70,12 @@ func execSQLWindowOnce(c Case) ([][]string, bool) {
 					id := fmt.Sprint(x)
 					line = append(line, id)
 					if id == sentinel {
-						select {
-						case seen <- struct{}{}:
-						default:
+						sentinelSeen++
+						if sentinelSeen == sentinelWant {
+							select {
+							case seen <- struct{}{}:
+							default:
+							}
 						}
 					}
 				}
